@@ -1,7 +1,7 @@
 #!/bin/bash
 # usage: tools/own_check.sh <seeded-id>... : each seeded change against the quick check of the property it breaks
 # (final confirmation with the committed checks; the full matrix is tools/matrix.sh). Result in seeded/<id>/own_check.txt
-export VERIF_DIR=/tmp/verif_scratch_out; mkdir -p $VERIF_DIR; cp /verif/known_findings.json $VERIF_DIR/
+export VERIF_DIR=/tmp/verif_scratch_out; mkdir -p $VERIF_DIR; cp /verif/known_findings.json $VERIF_DIR/; ln -sfn /verif/sim $VERIF_DIR/sim
 for m in "$@"; do
   p=${m%%-*}
   cd /repo && git diff --quiet || { echo "/repo dirty, abort"; exit 2; }
